@@ -424,13 +424,32 @@ appendCheck:
 				switch fld {
 				case "head":
 					// (head + count) % len
+					ringForm := false
 					if rem, ok := st.Val.(*ssa.BinOp); ok && rem.Op == token.REM {
 						if add, ok := rem.X.(*ssa.BinOp); ok && add.Op == token.ADD {
+							ringForm = true
 							uses["head"] = add.Y
 							if _, isLd := add.Y.(*ssa.UnOp); isLd {
 								uses["head"] = add.X
 							}
 						}
+					}
+					if !ringForm {
+						// the only other legitimate value is 0 for a buffer that this very call emptied: guarded by a test
+						// of the size field (as stored) against 0
+						emptied := false
+						if k, isK := flow.ConstInt(st.Val); isK && k == 0 {
+							for _, g := range flow.NormGuards(flow.Guards(b)) {
+								if bo, isB := g.Cond.(*ssa.BinOp); isB && bo.Op == token.EQL && g.Side {
+									if z, isZ := flow.ConstInt(bo.Y); isZ && z == 0 {
+										if fld2, okf := recvFieldLoad(bo.X, nil); okf && fld2 == "size" {
+											emptied = true
+										}
+									}
+								}
+							}
+						}
+						res.Check(emptied, "O5.3", "Discard: head is only advanced by the count (or rewound for an emptied buffer)", instrPos(c.Prog, st), "head = 0 under size == 0", "Discard stores a head that is not (head + count) % len(entries) while entries may remain: the surviving proxy ids then read other slots")
 					}
 				case "size":
 					if sub, ok := st.Val.(*ssa.BinOp); ok && sub.Op == token.SUB {
